@@ -1,6 +1,7 @@
 """Contracts for async code: Future::poll on lowered coroutines ("every await completes"), tokio I/O over a
 scripted symbolic Stream, std::net address types."""
 import re
+import sys
 import z3
 from values import (Int, Bool, UNIT, Agg, Ref, Opaque, Bytes, SeqV, MapV, Future, Stream, BV, simp, concrete,
                     fresh_name, INT_TYPES)
@@ -1129,6 +1130,32 @@ def linkedlist_pop_front(ctx):
     return NotImplemented
 
 
+@contract(r'^LinkedList::<.*>::append$|^Vec::<(?!u8>).*>::append$|^VecDeque::<.*>::append$')
+def seq_append(ctx):
+    """a.append(&mut b): a becomes a ++ b (order kept), b is left empty"""
+    ex, st = ctx.ex, ctx.st
+    va, la = seq_loc(ex, st, ctx.args[0])
+    vb, lb = seq_loc(ex, st, ctx.args[1])
+    if isinstance(va, SeqV) and va.items is not None and isinstance(vb, SeqV) and vb.items is not None:
+        ex.store(st, la[0], la[1], SeqV.from_items(va.items + vb.items, va.elem_ty, va.kind))
+        ex.store(st, lb[0], lb[1], SeqV.from_items([], vb.elem_ty, vb.kind))
+        return UNIT
+    return NotImplemented
+
+
+@contract(r'^<std::vec::IntoIter<.*> as Iterator>::collect::<(?:std::collections::)?(?:LinkedList|VecDeque|Vec)<.*>>$')
+def vec_into_iter_collect(ctx):
+    """into_iter().collect() into another sequence container: the remaining items, in iteration order"""
+    it = ctx.args[0]
+    if not (isinstance(it, Agg) and it.name == 'vec::IntoIter'):
+        return NotImplemented
+    seq, pos = it.fields[0], concrete(it.fields[1].t)
+    if pos is None or seq.items is None:
+        return NotImplemented
+    kind = 'list' if 'LinkedList' in ctx.callee.split('collect::<', 1)[1] else seq.kind
+    return SeqV.from_items(seq.items[pos:], seq.elem_ty, kind)
+
+
 @contract(r'^LinkedList::<.*>::len$')
 def linkedlist_len(ctx):
     v, _ = seq_loc(ctx.ex, ctx.st, ctx.args[0])
@@ -2028,9 +2055,10 @@ def option_filter(ctx):
 
 
 @contract(r'^core::num::<impl (u16|u32|u64|i16|i32|i64|usize)>::from_be_bytes$|^(u16|u32|u64|i16|i32|i64|usize)::from_be_bytes$|^core::num::from_be_bytes$'
-          r'|^core::num::<impl (u16|u32|u64|i16|i32|i64|usize)>::from_le_bytes$|^(u16|u32|u64|i16|i32|i64|usize)::from_le_bytes$')
+          r'|^core::num::<impl (u16|u32|u64|i16|i32|i64|usize)>::from_[ln]e_bytes$|^(u16|u32|u64|i16|i32|i64|usize)::from_[ln]e_bytes$')
 def int_from_bytes(ctx):
-    """uN::from_be_bytes / from_le_bytes on a byte array"""
+    """uN::from_be_bytes / from_le_bytes / from_ne_bytes on a byte array (native = the byte order of the build host, which is the
+    target: the checks and the replay both build for the host)"""
     from engine import INT_TYPES
     a = ctx.args[0]
     if isinstance(a, Ref):
@@ -2039,7 +2067,7 @@ def int_from_bytes(ctx):
     if n not in (2, 4, 8):
         return NotImplemented
     bs = [a.at(i) for i in range(n)]
-    if 'from_le' in ctx.callee:
+    if 'from_le' in ctx.callee or ('from_ne' in ctx.callee and sys.byteorder == 'little'):
         bs = bs[::-1]
     dt = (ctx.dest_ty or '').strip()
     bits, sg = INT_TYPES.get(dt, (8 * n, False))
@@ -2049,14 +2077,14 @@ def int_from_bytes(ctx):
 
 
 @contract(r'^core::num::<impl (u16|u32|u64|i16|i32|i64|usize)>::to_be_bytes$|^(u16|u32|u64|i16|i32|i64|usize)::to_be_bytes$|^core::num::to_be_bytes$'
-          r'|^core::num::<impl (u16|u32|u64|i16|i32|i64|usize)>::to_le_bytes$|^(u16|u32|u64|i16|i32|i64|usize)::to_le_bytes$')
+          r'|^core::num::<impl (u16|u32|u64|i16|i32|i64|usize)>::to_[ln]e_bytes$|^(u16|u32|u64|i16|i32|i64|usize)::to_[ln]e_bytes$')
 def int_to_bytes(ctx):
     a = ctx.args[0]
     if not isinstance(a, Int) or a.bits % 8:
         return NotImplemented
     n = a.bits // 8
     bs = [simp(z3.Extract(8 * (n - i) - 1, 8 * (n - i - 1), a.t)) for i in range(n)]
-    if 'to_le' in ctx.callee:
+    if 'to_le' in ctx.callee or ('to_ne' in ctx.callee and sys.byteorder == 'little'):
         bs = bs[::-1]
     return Bytes.from_terms(bs, 'array')
 
@@ -2355,3 +2383,59 @@ def str_split_next(ctx):
     raw = Bytes.symbolic(fresh_name('piece'), 'str')
     piece = Bytes(raw._at, simp(z3.If(z3.ULE(raw.len, src.len), raw.len, src.len)), 'str')
     return Agg('Option', {}, d, {1: {0: piece}}, ex.si.enums['Option'])
+
+
+@contract(r'^(?:std::string::)?String::truncate$')
+def string_truncate(ctx):
+    """String::truncate(n): no-op if n >= len; otherwise n must be a char boundary (panics if not) and the string is cut there"""
+    ex, st = ctx.ex, ctx.st
+    loc = BufLoc(ex, st, ctx.args[0])
+    b = loc.val
+    n = ctx.args[1].t
+    shorter = simp(z3.ULT(n, b.len))
+    # in valid UTF-8 a byte starts a character iff it is not a continuation byte 10xxxxxx
+    boundary = z3.Or(n == BV(0, 64), (b.at(n) & BV(0xC0, 8)) != BV(0x80, 8))
+    ex.require(st, z3.Implies(shorter, boundary), 'char-boundary', 'assertion failed: self.is_char_boundary(new_len)')
+    loc.set(Bytes(b._at, simp(z3.If(shorter, n, b.len)), b.kind))
+    return UNIT
+
+
+@contract(r'^(?:std::string::)?String::pop$')
+def string_pop(ctx):
+    """String::pop(): None if empty, else removes the last character (1..4 bytes)"""
+    ex, st = ctx.ex, ctx.st
+    loc = BufLoc(ex, st, ctx.args[0])
+    b = loc.val
+    empty = simp(b.len == BV(0, 64))
+    t, f = ex.branch(st, empty)
+    outs = []
+    if t:
+        s2 = st.fork() if f else st
+        ex.assume(s2, empty)
+        outs.append((s2, mk_option(ex, None)))
+    if f:
+        if t:
+            ex.assume(st, z3.Not(empty))
+        k = z3.BitVec(fresh_name('char_len'), 64)
+        last = b.at(simp(b.len - 1))
+        # an ASCII last byte is a whole character; otherwise the character is 2..4 bytes long
+        ex.assume(st, z3.And(z3.UGE(k, BV(1, 64)), z3.ULE(k, BV(4, 64)), z3.ULE(k, b.len), z3.Implies(z3.ULT(last, BV(0x80, 8)), k == BV(1, 64))))
+        loc2 = BufLoc(ex, st, ctx.args[0])
+        loc2.set(Bytes(b._at, simp(b.len - k), b.kind))
+        ch = z3.BitVec(fresh_name('popped_char'), 32)
+        ex.assume(st, z3.Implies(z3.ULT(last, BV(0x80, 8)), ch == z3.ZeroExt(24, last)))
+        outs.append((st, mk_option(ex, Int(ch, 32, False))))
+    return outs
+
+
+@contract(r'^core::str::<impl str>::(ends_with|starts_with)::<char>$|^core::str::(ends_with|starts_with)::<char>$')
+def str_ends_with_char(ctx):
+    ex, st = ctx.ex, ctx.st
+    s = BufLoc(ex, st, ctx.args[0]).val
+    c = ctx.args[1]
+    cv = concrete(c.t) if isinstance(c, Int) else None
+    if cv is None or cv >= 0x80:
+        return NotImplemented
+    if 'ends_with' in ctx.callee:
+        return Bool(simp(z3.And(z3.UGE(s.len, BV(1, 64)), s.at(simp(s.len - 1)) == BV(cv, 8))))
+    return Bool(simp(z3.And(z3.UGE(s.len, BV(1, 64)), s.at(BV(0, 64)) == BV(cv, 8))))
